@@ -131,6 +131,23 @@ func init() {
 	synthetic["syn-z-nul-head.txt"] = strings.Repeat("\x00", 5) + body
 	synthetic["syn-z-ctrl.txt"] = "\ufeff" + strings.Replace(body, " and ", " \x01and\x7f \f\v", 2) + "\x1a"
 	synthetic["syn-z-blank-tail.txt"] = body + "\u00a0\u2028\u3000 \t"
+	// one phrase 300 times (counts of one and the same hash beyond a byte), between distinct words
+	{
+		var sb strings.Builder
+		sb.WriteString("this agreement lists every item it covers one by one namely")
+		for i := 0; i < 300; i++ {
+			fmt.Fprintf(&sb, " item covered hereunder w%c%c", 'a'+i%26, 'a'+(i/26)%26)
+		}
+		// three more phrases, 256 / 257 / 512 times (one of the four cannot be the last in any order)
+		for k, n := range []int{256, 257, 512} {
+			ph := []string{"subject to these terms", "without any express warranty", "as permitted by law"}[k]
+			for i := 0; i < n; i++ {
+				fmt.Fprintf(&sb, " %s x%d%c%c", ph, k, 'a'+i%26, 'a'+(i/26)%26)
+			}
+		}
+		sb.WriteString(" and nothing else is covered by this agreement at all")
+		synthetic["syn-z-refrain.txt"] = sb.String()
+	}
 	synthetic["syn-z-crlf.txt"] = strings.ReplaceAll(strings.ReplaceAll(body, " that ", "\r\nthat "), " are ", "\r\nare ") + "\r\n"
 	// many small licenses (more than any batch or table size one would pick for 178 files)
 	for i := 0; i < 520; i++ {
@@ -265,7 +282,7 @@ func c15Archive(c *vrep.Ctx) {
 			}
 		}
 	}
-	c.R.Rule = fmt.Sprintf("archive round trip, mode %s: %d file sets (every shipped license alone / all ordered pairs (and triples) of an 8-file pool incl. .header files / synthetic files served through ReadLicenseFile: empty, one word, punctuation only, END OF TERMS trailer, duplicate text, a 9 000-word text larger than any shipped license, texts with NUL padding at either end, control characters, non-ASCII blanks at the end, CRLF); ArchiveLicenses -> New(ArchiveBytes): loads without error, contains exactly the file names minus .txt, and the archive-loaded string classifier answers NearestMatch and MultipleMatch on a query menu (each member, edited member, concatenation, unrelated text) exactly like a classifier built with AddValue from the same normalised texts; non-trivial = distinct (file set, query) comparisons", mode, len(sets))
+	c.R.Rule = fmt.Sprintf("archive round trip, mode %s: %d file sets (every shipped license alone / all ordered pairs (and triples) of an 8-file pool incl. .header files / synthetic files served through ReadLicenseFile: empty, one word, punctuation only, END OF TERMS trailer, duplicate text, a 9 000-word text larger than any shipped license, texts with NUL padding at either end, control characters, non-ASCII blanks at the end, CRLF, four phrases repeated 256..512 times); ArchiveLicenses -> New(ArchiveBytes): loads without error, contains exactly the file names minus .txt, and the archive-loaded string classifier answers NearestMatch and MultipleMatch on a query menu (each member, edited member, concatenation, unrelated text) exactly like a classifier built with AddValue from the same normalised texts; non-trivial = distinct (file set, query) comparisons", mode, len(sets))
 	c.Bound("file_sets", len(sets))
 	body := func(r *vx.Run) {
 		si := r.Choose(len(sets), "set")
@@ -323,6 +340,13 @@ func c15Archive(c *vrep.Ctx) {
 			for _, f := range qset {
 				t := readFile(f)
 				queries = append(queries, t, strings.Replace(t, " the ", " zq ", 3), "preamble text about software\n"+t+"\ntrailing words")
+				// a copy with three words changed wherever they are (texts without "the" too): not an exact occurrence
+				if w := strings.Fields(t); len(w) >= 8 {
+					for _, at := range []int{len(w) / 4, len(w) / 2, 3 * len(w) / 4} {
+						w[at] = "zqchanged"
+					}
+					queries = append(queries, "intro "+strings.Join(w, " "))
+				}
 			}
 			if len(set) > 1 {
 				queries = append(queries, readFile(set[0])+"\n\n"+readFile(set[1]))
